@@ -147,6 +147,11 @@ impl AsyncWrite for SimIo {
         Poll::Ready(Ok(()))
     }
     fn poll_shutdown(self: Pin<&mut Self>, _: &mut Context<'_>) -> Poll<io::Result<()>> {
+        // a transport whose orderly shutdown never completes (a TLS close_notify to a stalled peer): legal,
+        // and nothing about the client may depend on it
+        if self.0.lock().unwrap().wvec == 1 {
+            return Poll::Pending;
+        }
         Poll::Ready(Ok(()))
     }
 }
@@ -663,6 +668,8 @@ impl SimServer {
             "echo" => o.extend(format!("line: {}\n", t.get(1).cloned().unwrap_or_default()).as_bytes()),
             "x" => o.extend(format!("line: {}\n", line).as_bytes()),
             "fail" => return Err((50, "fail".into(), format!("failed {}", t.get(1).cloned().unwrap_or_default()), vec![])),
+            // a server (or proxy) that does not track the position inside a list: the ACK always says @0
+            "failz" => return Err((50, "failz".into(), format!("failed {}", t.get(1).cloned().unwrap_or_default()), vec![])),
             "pfail" => {
                 let a = t.get(1).cloned().unwrap_or_default();
                 return Err((50, "pfail".into(), format!("failed late {a}"), format!("line: partial {a}\nmore: output\n").into_bytes()));
@@ -799,7 +806,7 @@ impl SimServer {
                         Err((code, cmd, msg, pre)) => {
                             self.out.extend(o);
                             self.out.extend(pre);
-                            self.ack(code, i, &cmd, &msg);
+                            self.ack(code, if cmd == "failz" { 0 } else { i }, &cmd, &msg);
                             return;
                         }
                     }
@@ -881,13 +888,15 @@ fn gen_request(r: &mut Rng, big: bool) -> String {
         .map(|i| match r.below(12) {
             0 => {
                 if r.chance(1, 2) {
-                    cmd_spec("fail", &[format!("f{i}")])
+                    // (every third failing command is one whose ACK reports index 0 wherever it stands)
+                    cmd_spec(if i % 3 == 2 { "failz" } else { "fail" }, &[format!("f{i}")])
                 } else {
                     cmd_spec("pfail", &[format!("p{i}")])
                 }
             }
             1 => cmd_spec("bin", &[format!("{}", r.pick(&[0usize, 1, 7, 40]))]),
-            2 if big => cmd_spec("big", &[format!("{}", r.pick(&[100usize, 4090, 5000, 9000]))]),
+            // (`big n` is answered with n + 10 bytes: 4086 and 8182 make replies of exactly 4096 and 8192 bytes)
+            2 if big => cmd_spec("big", &[format!("{}", r.pick(&[100usize, 4090, 5000, 9000, 4086, 4085, 4087, 8182]))]),
             3 => cmd_spec("echo", &[format!("hello world {}", r.below(100))]),
             4 => cmd_spec("ping", &[]),
             5 => cmd_spec("nosuch", &[]),
@@ -1019,6 +1028,43 @@ pub fn gen_request_burst(r: &mut Rng, n: usize) -> String {
     })
 }
 
+/// C04: the first idle reply has exactly `total` bytes (one change with a long unknown name)
+pub fn gen_sized_idle_reply(r: &mut Rng, total: usize) -> String {
+    let sel_seed = r.next() % 1_000_000;
+    let rt = runtime(sel_seed);
+    rt.block_on(async {
+        let mut w = World::new(None, sel_seed);
+        let mut sv = SimServer::default();
+        let mut actions: Vec<String> = Vec::new();
+        async fn act(w: &mut World, sv: &mut SimServer, actions: &mut Vec<String>, a: String) {
+            let seg = w.act(&a).await;
+            actions.push(a);
+            for p in seg.split('&') {
+                if let Some(h) = p.strip_prefix("w=") {
+                    sv.feed(&unhex(h));
+                }
+            }
+        }
+        act(&mut w, &mut sv, &mut actions, format!("d{}", hex(b"OK MPD 0.23.5\n"))).await;
+        // "changed: " + name + "\n" + "OK\n" = total
+        let name: String = (0..total - 13).map(|i| (b'a' + (i % 26) as u8) as char).collect();
+        sv.change(&name);
+        act(&mut w, &mut sv, &mut actions, format!("s{}", hex(name.as_bytes()))).await;
+        let v: Vec<u8> = sv.out.drain(..).collect();
+        act(&mut w, &mut sv, &mut actions, format!("d{}", hex(&v))).await;
+        act(&mut w, &mut sv, &mut actions, "t100".to_string()).await;
+        act(&mut w, &mut sv, &mut actions, format!("q1:{}", cmd_spec("x", &["after".to_string()]))).await;
+        for _ in 0..3 {
+            if !sv.out.is_empty() {
+                let v: Vec<u8> = sv.out.drain(..).collect();
+                act(&mut w, &mut sv, &mut actions, format!("d{}", hex(&v))).await;
+            }
+            act(&mut w, &mut sv, &mut actions, "t100".to_string()).await;
+        }
+        format!("loop.C04.{} ~ {}", sel_seed, actions.join(","))
+    })
+}
+
 /// C13 at scale: ONE typed list of some 10 KB over a transport that advertises vectored writes and takes
 /// 100 bytes (gathered across slices) or one slice per call — whatever strategy writes the list, short
 /// writes end inside lines and on line boundaries, and the block must still arrive intact
@@ -1119,7 +1165,7 @@ pub fn gen_schedule(r: &mut Rng, g: &GenCfg, steps: usize, prop: &str, backpress
         let pw = if g.password {
             // passwords are arguments like any other (C06): trailing blanks, tabs, no-break spaces and quotes
             // must reach the server verbatim
-            Some(if r.chance(1, 2) { "secret".to_string() } else { r.pick(&["wrong", "sec ret", "", "secret ", "secret\t", " secret", "se\"cr'et \u{a0}", "pass\\word \u{3000}", " "]).to_string() })
+            Some(if r.chance(1, 2) { "secret".to_string() } else { r.pick(&["wrong", "sec ret", "", "secret ", "secret\t", " secret", "se\"cr'et \u{a0}", "pass\\word \u{3000}", " ", "secret\r", "k\x01\x7f9\x1bZq\r\r", "\r"]).to_string() })
         } else {
             None
         };
@@ -1154,6 +1200,9 @@ pub fn gen_schedule(r: &mut Rng, g: &GenCfg, steps: usize, prop: &str, backpress
         let greeting: Vec<u8> = match r.below(12) {
             0 if g.faults => b"OK MPD \n".to_vec(),
             1 if g.faults => b"NOPE\n".to_vec(),
+            // a peer that is not MPD, sends no line end and keeps the connection open (a telnet negotiation,
+            // another protocol's banner): the first bytes already decide, nothing more will come
+            2 if g.faults && prop == "C18" => r.pick(&[&b"\xff\xfb\x01\xff\xfb\x03"[..], b"220 ProFTPD Server ready", b"OK MPX"]).to_vec(),
             _ => format!("OK MPD 0.{}.{}\n", r.below(30), r.below(20)).into_bytes(),
         };
         if g.password && r.chance(1, 8) {
@@ -1516,6 +1565,11 @@ pub fn gen(cfg: &Cfg) -> Vec<String> {
         // more unread events than any plausible queue bound (64, 128, 256 …)
         if cfg.prop == "C04" && i == 2 {
             ops.push(gen_burst(&mut r, 300));
+        }
+        // an idle reply of exactly 4096 / 8192 … bytes delivered in one piece, then silence (a read that
+        // fills the buffer exactly must not make the client wait for more before it looks at what it has)
+        if cfg.prop == "C04" && i < 6 {
+            ops.push(gen_sized_idle_reply(&mut r, [4096usize, 4095, 4097, 8192, 1000, 12288][i]));
         }
         if cfg.prop == "C08" && i < 4 {
             ops.push(gen_burst_for(&mut r, [70, 130, 10, 300][i], "C08"));
